@@ -1054,7 +1054,8 @@ func (c *ctx) isPlusOne(e, f ast.Expr) bool {
 }
 
 var assignOps = map[token.Token]token.Token{token.ADD_ASSIGN: token.ADD, token.SUB_ASSIGN: token.SUB,
-	token.MUL_ASSIGN: token.MUL, token.QUO_ASSIGN: token.QUO, token.REM_ASSIGN: token.REM}
+	token.MUL_ASSIGN: token.MUL, token.QUO_ASSIGN: token.QUO, token.REM_ASSIGN: token.REM,
+	token.XOR_ASSIGN: token.XOR, token.AND_ASSIGN: token.AND, token.OR_ASSIGN: token.OR}
 
 func (c *ctx) assign(s *ast.AssignStmt) {
 	define := s.Tok == token.DEFINE
@@ -1198,8 +1199,9 @@ func (c *ctx) assign(s *ast.AssignStmt) {
 }
 
 func (c *ctx) opAssign(lhs ast.Expr, op token.Token, rhs ast.Expr, at ast.Node) {
-	if !isInt(c.typeOf(lhs)) && !(isUnsigned(c.typeOf(lhs)) && (op == token.ADD || op == token.SUB || op == token.MUL)) {
-		c.fail(at, "operator assignment on %s", c.typeOf(lhs))
+	bitOp := op == token.XOR || op == token.AND || op == token.OR
+	if !(isInt(c.typeOf(lhs)) && !bitOp) && !(isUnsigned(c.typeOf(lhs)) && (op == token.ADD || op == token.SUB || op == token.MUL || bitOp)) {
+		c.fail(at, "operator assignment %s= on %s", op, c.typeOf(lhs))
 	}
 	// Go evaluates the operands of lhs once; we evaluate them for the store and again (same pure terms)
 	// for the read, which is unobservable because they are pure after hoisting.
@@ -1219,6 +1221,8 @@ func (c *ctx) opAssign(lhs ast.Expr, op token.Token, rhs ast.Expr, at ast.Node) 
 		} else {
 			store(c.hoist("Go.%s %s %s", name, paren(cur), paren(r)))
 		}
+	case token.XOR, token.AND, token.OR: // unsigned words only (checked above): x ^= y is x = x ^ (y)
+		store("(" + cur + " " + map[token.Token]string{token.AND: "&&&", token.OR: "|||", token.XOR: "^^^"}[op] + " " + paren(r) + ")")
 	default:
 		store("(" + cur + " " + op.String() + " " + r + ")")
 	}
@@ -1746,6 +1750,26 @@ func (c *ctx) loopStmt(loop ast.Stmt, init ast.Stmt, cond ast.Expr, post ast.Stm
 			if in.Tok != token.DEFINE {
 				c.stmt(in) // assigns to outer variables: an ordinary statement before the loop
 				break
+			}
+			if len(in.Rhs) == 1 {
+				// `for i := next(); …` where the call modifies its receiver / arguments: the initialiser runs exactly once,
+				// before the first test, so it is an ordinary statement in front of the loop; its variables enter the loop
+				// as state with the values it gave them (they are declared in the enclosing `do` block: Lean's shadowing
+				// keeps a later variable of the same name apart, as Go's scoping does)
+				if call, isCall := ast.Unparen(in.Rhs[0]).(*ast.CallExpr); isCall {
+					if g := t.callee(call); g != nil && (g.mutRecv || len(g.mutParam) > 0 || g.grand) {
+						c.stmt(in)
+						for _, l := range in.Lhs {
+							v, _ := t.info.Defs[l.(*ast.Ident)].(*types.Var)
+							if v == nil {
+								c.fail(in, "loop initialiser := that redeclares %s", l.(*ast.Ident).Name)
+							}
+							headVars = append(headVars, v)
+							headVals = append(headVals, varName(v))
+						}
+						break
+					}
+				}
 			}
 			if len(in.Lhs) != len(in.Rhs) {
 				c.fail(in, "loop initialiser with a multi-valued expression")
